@@ -361,6 +361,11 @@ class QualifiedSWHID(_BaseSWHID[ObjectType]):
             unescaped_origin = origin
             origin = origin.replace("%", "%25")
             origin = origin.replace(";", "%3B")
+            # whitespace cannot appear in a SWHID; it can end up in an origin
+            # parsed from its percent-encoded form
+            origin = "".join(
+                urllib.parse.quote(c) if c.isspace() else c for c in origin
+            )
             assert (
                 urllib.parse.unquote(origin) == unescaped_origin
             ), "Escaping ';' in the origin qualifier corrupted the origin URL."
